@@ -14,6 +14,7 @@ mod c03;
 mod c04;
 mod c05;
 mod c07;
+mod c08;
 mod tree;
 mod c09;
 mod c10;
@@ -34,6 +35,16 @@ fn main() {
     if args.len() < 3 {
         eprintln!("usage: vh corr|search <Cxx> [tier]");
         std::process::exit(2);
+    }
+    if args[1] == "shift" {
+        // vh shift <file> <dx> <dy> [scale]: does render(translate·M) equal the shifted render(M)?
+        let data = std::fs::read(&args[2]).unwrap();
+        let o = corpus::opts_for(Some(std::path::Path::new(&args[2])));
+        let t = usvg::Tree::from_data(&data, &o).unwrap();
+        let (dx, dy): (i32, i32) = (args[3].parse().unwrap(), args[4].parse().unwrap());
+        let scale: f32 = args.get(5).and_then(|x| x.parse().ok()).unwrap_or(1.0);
+        println!("{:?}", c13::translate_differs(&t, scale, dx, dy));
+        return;
     }
     if args[1] == "write" {
         // vh write <file> [preserve]
@@ -74,6 +85,6 @@ fn main() {
             }
         };
     }
-    dispatch!("C01" => c01, "C02" => c02, "C03" => c03, "C04" => c04, "C05" => c05, "C07" => c07, "C09" => c09, "C10" => c10, "C11" => c11, "C13" => c13,
+    dispatch!("C01" => c01, "C02" => c02, "C03" => c03, "C04" => c04, "C05" => c05, "C07" => c07, "C08" => c08, "C09" => c09, "C10" => c10, "C11" => c11, "C13" => c13,
         "C14" => c14, "C15" => c15, "C16" => c16, "C17" => c17);
 }
